@@ -66,20 +66,34 @@ def _ring_cases():
 
 
 class _Rec:
+    """stands for builtin hash inside _morgan: records every argument, answers with the call index (all distinct: the loop stops after round one)"""
+    def __init__(self):
+        self.calls = []
+
     def __call__(self, t):
-        self.last = t
-        return 0
+        self.calls.append(t)
+        return len(self.calls)
+
+
+def _opaque(x):
+    """symbolic invariant whose __hash__ is its identity: `len(set(atoms.values()))` before the first round must not concretise it.
+    Comparisons (sorted) stay symbolic.  Only the hashed tuples of round one are observed."""
+    from pysym.core import SymInt
+
+    class W(SymInt):
+        __slots__ = ()
+
+        def __hash__(s):
+            return id(s) >> 4
+    return W(x.z)
 
 
 def _morgan_cases():
-    src = env.read(MFILE)
-    tree = ast.parse(src)
-    f = regions.find_function(tree, '_morgan')
-    loop = regions.locate(f, 'for[0]')
-    comp = next(n for n in ast.walk(loop) if isinstance(n, ast.DictComp))
-    e = ast.Expression(comp.value)
-    ast.fix_missing_locations(e)
-    code = compile(e, env.repo_path(MFILE), 'eval')
+    """the whole REAL function _morgan runs (code object of the current source, `hash` bound to a recorder): the tuple hashed for an atom in
+    round one is the same for every enumeration order of its neighbour dict.  No statement of the body is addressed, so edits inside the
+    function that keep the behaviour keep the obligation."""
+    import types
+    import chython.algorithms.morgan as mg
     out = []
     for k in range(1, 4):
         dom = []
@@ -87,17 +101,41 @@ def _morgan_cases():
         ws = [sym_int(f'w{i + 1}', -(1 << 62), 1 << 62, dom) for i in range(k)]
         bs = [sym_int(f'b{i + 1}', 1, 8, dom) for i in range(k)]
         for perm in list(itertools.permutations(range(k)))[1:] or [tuple(range(k))]:
-            def fn(perm=perm, k=k):
+            def fn(perm=perm, k=k, w0=w0, ws=ws, bs=bs):
                 res = []
                 for order in (tuple(range(k)), perm):
                     rec = _Rec()
-                    atoms = {0: w0, **{i + 1: ws[i] for i in range(k)}}
-                    ms = {i + 1: bs[i] for i in order}         # neighbour dict in the given enumeration order
-                    eval(code, {'hash': rec, 'sorted': sorted, 'atoms': atoms, 'n': 0, 'ms': ms})
-                    res.append(tuple(rec.last))
+                    f = types.FunctionType(mg._morgan.__code__, {**vars(mg), 'hash': rec}, '_morgan', mg._morgan.__defaults__, mg._morgan.__closure__)
+                    c = _opaque(w0)
+                    atoms = {0: c, **{i + 1: _opaque(ws[i]) for i in range(k)}}
+                    bonds = {0: {i + 1: bs[i] for i in order}, **{i + 1: {0: bs[i]} for i in range(k)}}   # neighbour dict of atom 0 in the given order
+                    f(atoms, bonds)
+                    mine = [t for t in rec.calls if isinstance(t, tuple) and t and t[0] is c]
+                    if len(mine) != 1:
+                        raise AssertionError(f'expected exactly one hashed tuple led by the invariant of atom 0 in round one, found {len(mine)}')
+                    res.append(tuple(mine[0]))
                 return res
+            def native(model, perm=perm, k=k):
+                # the counter-model on the real function (builtin hash observed, not replaced by a symbolic stand-in): hashed tuples of atom 0
+                import types
+                tuples, results = [], []
+                for order in (tuple(range(k)), perm):
+                    seen = []
+
+                    def obs(t, seen=seen):
+                        seen.append(t)
+                        return hash(t)
+                    f = types.FunctionType(mg._morgan.__code__, {**vars(mg), 'hash': obs}, '_morgan', mg._morgan.__defaults__, mg._morgan.__closure__)
+                    w = [model.get(f'w{i}', 0) for i in range(k + 1)]
+                    b = [model.get(f'b{i + 1}', 1) for i in range(k)]
+                    atoms = {i: w[i] for i in range(k + 1)}
+                    bonds = {0: {i + 1: b[i] for i in order}, **{i + 1: {0: b[i]} for i in range(k)}}
+                    results.append(f(atoms, bonds))
+                    tuples.append(seen[0] if seen else None)
+                return dict(ok=tuples[0] == tuples[1], atom_invariants=w, bond_invariants=b, neighbour_orders=[list(range(k)), list(perm)],
+                            hashed_tuple_of_atom_0=tuples, morgan_result=results)
             out.append(Case(f'_morgan/refinement-step-independent-of-neighbour-order[degree={k},perm={perm}]', fn, dom,
-                            lambda v: _seq_eq(v[0], v[1]), (), None, (MFILE, '_morgan/for[0]/dictcomp')))
+                            lambda v: _seq_eq(v[0], v[1]), (), native, (MFILE, '_morgan')))
     return out
 
 
